@@ -613,6 +613,9 @@ type Evidence struct {
 var propResidue = map[string][]string{}
 
 func writeEvidence(verifDir string, pr *PropRun, results []*NamedResult, violations int, known []string, undecided []string, extra map[string]interface{}) error {
+	if os.Getenv("GCV_NOEVIDENCE") != "" {
+		return nil // scratch-copy runs (tools/mut.sh, selftest) never touch the evidence of the real tree
+	}
 	obl, dis := 0, 0
 	totals := map[string]float64{}
 	counts := map[string]int{}
